@@ -8,6 +8,7 @@ mod prob;
 mod state;
 mod twins;
 mod fit;
+mod fault;
 
 use common::Out;
 use std::io::Write;
@@ -55,6 +56,7 @@ fn main() {
         "mrhs" => twins::stream_mrhs(&mut out, seed, thorough),
         "par" => twins::stream_par(&mut out, seed, thorough),
         "fit" => fit::stream(&mut out, seed, thorough),
+        "fault" => fault::stream(&mut out, seed, thorough),
         _ => {
             eprintln!("unknown stream {}", stream);
             std::process::exit(2);
